@@ -435,13 +435,13 @@ class Exporter:
     def is_signature_cancelled(self, signature_node, node, from_stage, to_stage) -> bool:
         if node.token.__class__ == signature_node.token.__class__:
             return True
-        elif isinstance(node.token, NoteRestToken):
+        elif isinstance(node.token, NoteRestToken) or node.token.category == TokenCategory.CHORD:
             return False
         elif from_stage < to_stage:
-            for child in node.children:
-                if self.is_signature_cancelled(signature_node, child, from_stage + 1, to_stage):
-                    return True
-            return False
+            # the signature is only superseded if EVERY path below replaces it before a note needs it
+            return len(node.children) > 0 and all(
+                self.is_signature_cancelled(signature_node, child, from_stage + 1, to_stage) for child in node.children)
+        return False
 
 
 def get_kern_from_ekern(ekern_content: str) -> str:
